@@ -54,4 +54,16 @@ Strings == {
 TableOf(t) == { s \in Strings : s[1] = t }
 \* printing is injective within a table, so parsing the printed form can return the value
 PrintInjective == \A t \in {"Ecdsa", "Schnorr"} : \A a, b \in TableOf(t) : a[3] = b[3] => a[2] = b[2]
+-------------------------------------------------------------------------------------------------------
+(* Byte-string fields and the content classes a format may mistake for something else: a self-describing  *)
+(* format offers bytes, text and sequences, and a visitor that accepts more than one of them must not     *)
+(* reinterpret one as another.  The round trip is required for every (field, class) pair.                 *)
+ByteFields == { <<"TxIn", "script_sig">>, <<"TxOut", "script_pubkey">>, <<"TxInWitness", "script_witness">>, <<"TxInWitness", "pegin_witness">>,
+                <<"Params.Full", "signblockscript">>, <<"Params.Full", "fedpeg_program">>, <<"Params.Full", "fedpegscript">>,
+                <<"Params.Full", "extension_space">>, <<"Params.Compact", "signblockscript">>,
+                <<"ExtData.Proof", "challenge">>, <<"ExtData.Proof", "solution">>, <<"ExtData.Dynafed", "signblock_witness">>,
+                <<"pset::Input", "redeem_script">>, <<"pset::Input", "final_script_witness">>, <<"pset::Input", "unknown">>, <<"pset::Input", "proprietary">>,
+                <<"pset::Output", "script_pubkey">>, <<"pset::Global", "unknown">>, <<"pset::Global", "proprietary">> }
+ContentClasses == {"random", "ascii-hex-even", "ascii-hex-odd", "ascii-text", "utf8", "zeros", "empty", "single-ff"}
+ContentCases == ByteFields \X ContentClasses
 =============================================================================
